@@ -1,5 +1,64 @@
 import WuffsVerif.Common.Line
-/-! Line driver for C11 — stub, not built yet. -/
-open WuffsVerif.Line
+import WuffsVerif.Model.Token
+/-! Line driver for C11 (lang/token, lang/parse).  Ops:
+  tok <hex>          -> ok n=<tokens> u=<user names> c=<comments> h=<fnv1a-64> [t=id:line,…]  |  err <class> <line|->
+(the same canonical line harness/cmd/c11/tie.go renders from token.Tokenize's answer).
+-/
+open WuffsVerif WuffsVerif.Line WuffsVerif.Token
 
-def main : IO Unit := runPure (fun _ => "bad-op")
+namespace C11Driver
+
+def fnvInit : UInt64 := 0xcbf29ce484222325
+
+@[inline] def fnvByte (h : UInt64) (b : UInt8) : UInt64 := (h ^^^ b.toUInt64) * 0x100000001b3
+
+def fnvU32 (h : UInt64) (x : Nat) : UInt64 :=
+  let h := fnvByte h (UInt8.ofNat (x % 256))
+  let h := fnvByte h (UInt8.ofNat (x / 256 % 256))
+  let h := fnvByte h (UInt8.ofNat (x / 65536 % 256))
+  fnvByte h (UInt8.ofNat (x / 16777216 % 256))
+
+def fnvStr (h : UInt64) (s : String) : UInt64 :=
+  s.foldl (fun h c => fnvByte h (UInt8.ofNat c.toNat)) h
+
+def hex16 (x : UInt64) : String :=
+  String.ofList ((List.range 16).map (fun i => hexDigit ((x.toNat >>> (4 * (15 - i))) % 16)))
+
+def listingLimit : Nat := 160
+
+def errWord : Err → String
+  | .lines => "lines" | .backslash => "backslash" | .unterminated => "unterminated"
+  | .control => "control" | .strlong => "strlong" | .sqinvalid => "sqinvalid"
+  | .sqmulti => "sqmulti" | .identlong => "identlong" | .octal => "octal"
+  | .constlong => "constlong" | .numeric => "numeric" | .unrecognized => "unrecognized"
+  | .toomany => "toomany" | .stuck => "stuck"
+
+def tokLine (src : ByteArray) : String :=
+  match tokenize src with
+  | .error f =>
+    let line := match f.err with
+      | .lines | .toomany => "-"
+      | _ => toString f.line
+    "err " ++ errWord f.err ++ " " ++ line
+  | .ok st =>
+    let h := st.toks.foldl (fun h t => fnvU32 (fnvU32 h t.id) t.line) fnvInit
+    let h := fnvByte h 0xFF
+    let h := st.m.byID.foldl (fun h s => fnvByte (fnvStr h s) 0) h
+    let h := fnvByte h 0xFF
+    let h := st.comments.foldl (fun h s => fnvByte (fnvStr h s) 10) h
+    let s := s!"ok n={st.toks.size} u={st.m.byID.size} c={st.comments.size} h={hex16 h}"
+    if src.size ≤ listingLimit then
+      s ++ " t=" ++ ",".intercalate (st.toks.toList.map (fun t => s!"{t.id}:{t.line}"))
+    else s
+
+def step (l : List String) : String :=
+  match l with
+  | ["tok", hex] =>
+    match fromHexArr hex with
+    | some src => tokLine src
+    | none => "bad-op"
+  | _ => "bad-op"
+
+end C11Driver
+
+def main : IO Unit := runPure C11Driver.step
